@@ -11,7 +11,13 @@ from . import core, c02, c11
 PID = "C12"
 DEP = ["/p/dep.ts", "export let n = 1; export function inc(){ n++; return n; }"]
 
+MANY = ["/p/many.ts", "export const zeta = 1; export function alpha(){ return 2; } export let mid = 3; export class B1 {} export const a0 = 5, q = 6; export default 7; export { zeta as renamed };"]
+STAR = ["/p/star.ts", "export * from './many.ts'; export const own1 = 1; export const aaa = 2;"]
+
 PROGRAMS = {
+    # the key order of module namespaces (as scripts and the host see it) must depend on the names only
+    "module-namespace-order": {"src": "import * as ns from './many.ts'; import * as st from './star.ts'; export const zz = 1, bb = 2, mm = 3, aa = 4; export function ff(){} const ks = []; for (const k in ns) ks.push(k); Object.keys(ns).join() + '|' + ks.join() + '|' + Object.keys(st).join() + '|' + JSON.stringify(ns)", "path": "/p/main.ts", "modules": [MANY, STAR]},
+    "module-many-exports": {"src": "export const e9 = 9, e1 = 1, e5 = 5; export let z = 0, y = 0, x = 0; export function w(){} export class V {} export default 1; export const u = [e9, e1].join(); u", "path": "/p/main.ts"},
     "compute": "let s = 0; for (let i = 0; i < 25; i++) { s += i * i % 7; } s",
     "object-keys": "const o = {}; for (const k of ['zeta', 'alpha', 'm', 'b1', 'a0', 'q']) o[k] = k.length; const ks = []; for (const k in o) ks.push(k); ks.join() + JSON.stringify(o)",
     "map-object-keys": "const ks = [{a:1}, {b:2}, [3], function(){}, {c:3}]; const m = new Map(); ks.forEach((k, i) => m.set(k, i)); const s = new Set(ks); [...m.values()].join() + '|' + [...s].length + '|' + [...m.keys()].map(k => typeof k).join()",
